@@ -111,6 +111,12 @@ func drawPlan(t *rapid.T) plan {
 		UseRocksWAL: os.Getenv("C04_ROCKSWAL") == "1",
 		WALSegment:  []int64{0, 64 << 10, 256 << 10, 1 << 20}[rapid.IntRange(0, 3).Draw(t, "wal_segment")],
 	}
+	if rapid.IntRange(0, 3).Draw(t, "apply_stall") == 0 {
+		// the apply loop of one replica is descheduled once for longer than the 4 s proposal deadline
+		// (every incarnation of that replica: at its k-th applied entry)
+		p.Opts.StallNode = rapid.IntRange(0, p.Opts.N-1).Draw(t, "stall_node")
+		p.Opts.Stall = fmt.Sprintf("apply.before_entry:%d:%d", rapid.IntRange(50, 1200).Draw(t, "stall_k"), rapid.IntRange(4200, 5200).Draw(t, "stall_ms"))
+	}
 	if e := os.Getenv("C04_ENGINE"); e != "" {
 		p.Opts.Engine = e
 	}
@@ -201,8 +207,8 @@ func drawPlan(t *rapid.T) plan {
 	nn := rapid.IntRange(5, 12).Draw(t, "nnemesis")
 	for i := 0; i < nn; i++ {
 		p.Nemesis = append(p.Nemesis, nemStep{
-			Kind: pickWeighted(t, "nemesis", []string{"kill_leader", "kill_random", "term_random", "restart", "transfer", "pause_leader", "pause_random"},
-				[]int{4, 2, 1, 3, 3, 3, 1}),
+			Kind: pickWeighted(t, "nemesis", []string{"kill_leader", "kill_random", "term_random", "restart", "transfer", "pause_leader", "pause_random", "pause_followers"},
+				[]int{4, 2, 1, 3, 3, 3, 1, 2}),
 			Pick:    rapid.IntRange(0, 1<<20).Draw(t, "pick"),
 			DelayMs: rapid.IntRange(100, 1500).Draw(t, "nem_delay"),
 			DurMs:   rapid.IntRange(300, 3500).Draw(t, "nem_dur"),
@@ -458,8 +464,14 @@ func (r *runner) client(ci int, out *[]opRec, wg *sync.WaitGroup) {
 			}
 		}
 		if o.Outcome != "ok" {
-			retarget()
-			time.Sleep(30 * time.Millisecond)
+			// half of the clients keep their connection after an error REPLY that does not speak of
+			// leadership (a timed-out proposal, say) and go on at once, as a pooled SDK connection does;
+			// the others reconnect to whoever leads now
+			keep := ci%2 == 1 && err == nil && reply.T == "e" && !strings.Contains(strings.ToLower(reply.S), "leader")
+			if !keep {
+				retarget()
+				time.Sleep(30 * time.Millisecond)
+			}
 		}
 	}
 }
@@ -525,7 +537,27 @@ func (r *runner) nemesis() {
 		if kind == "restart" && len(r.nodesIn(stDown, stTerming)) == 0 {
 			kind = "transfer" // nothing to restart
 		}
+		if kind == "pause_followers" && (unavailable > 0 || c.leader() < 0) {
+			kind = "pause_leader"
+			if unavailable >= maxUnavail {
+				kind = "restart"
+			}
+		}
 		switch kind {
+		case "pause_followers":
+			// a schedule, not a fault: every follower is descheduled (SIGSTOP) for longer than the
+			// 4 s proposal deadline while the leader keeps taking writes; the leader's proposals time
+			// out with their entries still in its log, and commit and apply after the followers resume
+			l := c.leader()
+			t := r.now()
+			dur := time.Duration(4200+s.DurMs%1800) * time.Millisecond
+			for _, i := range up {
+				if i != l {
+					c.pause(i)
+					resumeAt[i] = time.Now().Add(dur)
+				}
+			}
+			r.event(kind, l, t, r.now(), fmt.Sprintf("all followers of leader %d paused for %v", l, dur))
 		case "restart":
 			down := r.nodesIn(stDown, stTerming)
 			if len(down) == 0 {
@@ -572,7 +604,11 @@ func (r *runner) nemesis() {
 				c.sigterm(v)
 			default:
 				c.pause(v)
-				resumeAt[v] = time.Now().Add(time.Duration(s.DurMs) * time.Millisecond)
+				d := s.DurMs
+				if s.Pick%3 == 0 {
+					d += 3000 // sometimes longer than the 4 s proposal deadline
+				}
+				resumeAt[v] = time.Now().Add(time.Duration(d) * time.Millisecond)
 			}
 			r.event(kind, v, t, r.now(), "")
 		case "transfer":
@@ -1057,6 +1093,9 @@ func classifyHistory(h *history, v *verdict) ([]string, bool) {
 	labels = append(labels, "snapshots_installed:"+bucket(h.LogStats["log_snapshot_installed"], 0, 1, 2, 4))
 	labels = append(labels, "acked_writes:"+bucket(acked, 29, 100, 300, 1000, 3000))
 	labels = append(labels, "unknown_writes:"+bucket(v.Counts["unknown_writes"], 0, 2, 5, 10, 20, 40))
+	if h.Opts.Stall != "" {
+		labels = append(labels, "apply_loop_stalled_beyond_proposal_deadline")
+	}
 	labels = append(labels, fmt.Sprintf("nodes:%d", h.Opts.N), "engine:"+h.Opts.Engine, fmt.Sprintf("clients:%d", h.Clients), fmt.Sprintf("keys:%d", len(h.Keys)))
 	if killInflight {
 		labels = append(labels, "kill9_during_inflight_write")
